@@ -100,10 +100,10 @@ inline std::map<std::string, std::string> files_of(const json& j) {
 // commands already run on the big-stack thread (see main.cpp)
 inline void run_big_stack(std::function<void()> fn) { fn(); }
 // run fn on a thread with a 1 GB stack (sanitizer-inflated recursion must not fake a crash)
-inline void run_on_big_stack(std::function<void()> fn) {
+inline void run_on_big_stack(std::function<void()> fn, size_t bytes = (size_t)1 << 30) {
   pthread_attr_t at;
   pthread_attr_init(&at);
-  pthread_attr_setstacksize(&at, (size_t)1 << 30);
+  pthread_attr_setstacksize(&at, bytes);
   pthread_t t;
   auto tramp = [](void* p) -> void* { (*(std::function<void()>*)p)(); return nullptr; };
   if (pthread_create(&t, &at, tramp, &fn) != 0) { fn(); return; }
